@@ -28,7 +28,7 @@ print("events", dict(ctx.events))
 if a.key:
   path = os.path.join(os.path.dirname(os.path.dirname(os.path.abspath(__file__))), "known_findings.json")
   d = json.load(open(path))
-  d["findings"] = [f for f in d["findings"] if f["key"] != a.key]
+  d["findings"] = [f for f in d["findings"] if not (f["key"] == a.key and f["property"] == a.prop)]
   e = {"property": a.prop, "key": a.key, "status": a.status, "what": a.what,
        "predicate": a.predicate, "witness": core.to_jsonable(case)}
   if a.commit: e["commit"] = a.commit
